@@ -61,6 +61,33 @@ def boundary_scripts():
           ("cyclic", "return import(\"c1\")\n"), ("self-import", "return import(\"s1\")\n"), ("unknown-import", "return import(\"nope\")\n")]
     return S
 
+def scope_state_scripts(names=("len", "string", "error")):
+    """a builtin name bound by every binding form at every level (main script, enclosing function, the function
+    literal itself: parameter or local) x a literal constant declared at every level or not at all x the
+    expression forms the optimizer treats differently, inside the innermost function literal"""
+    S = []
+    local_forms = [("def", "%s := 1"), ("var", "var %s"), ("const", "const %s = 1"), ("destr", "%s, q9 := [1, 2]"),
+                   ("forin", "for %s in [1] { }"), ("catch", "try { throw 1 } catch %s { }")]
+    top_forms = local_forms + [("param", "param %s"), ("global", "global %s")]
+    exprs = ["x + c", "-x", "!x", "%(n)s + \"x\"", "len(\"ab\") + x", "x ? c : 1", "c", "string(7) + (x ? \"a\" : \"b\")"]
+    for nm in names:
+        sites = [("top-" + k, f % nm, "", "", "", "") for k, f in top_forms] + [("gparam", "", nm, "", "", "")] + \
+                [("glocal-" + k, "", "", f % nm, "", "") for k, f in local_forms] + [("fparam", "", "", "", nm, "")] + \
+                [("flocal-" + k, "", "", "", "", f % nm) for k, f in local_forms]
+        for site, btop, gpar, bg, fpar, bf in sites:
+            for cl in (None, 0, 1, 2):
+                cd = ["const c = 2" if cl == i else "" for i in range(3)]
+                if cl is None: cd0 = "c := 2"
+                else: cd0 = cd[0]
+                for j, e in enumerate(exprs):
+                    e = e % {"n": nm}
+                    src = "\n".join(x for x in [btop if btop.startswith("param") else "", cd0, "" if btop.startswith("param") else btop,
+                                                "g := func(y%s) {" % (", " + gpar if gpar else ""), cd[1], bg,
+                                                "f := func(x%s) {" % (", " + fpar if fpar else ""), cd[2], bf,
+                                                "return " + e, "}", "return f(1, 2)", "}", "return g(1, 2)"] if x) + "\n"
+                    S.append(("scope-%s-%s-c%s-e%d" % (nm, site, cl, j), src))
+    return S
+
 def mutate_src(rng, src):
     b = bytearray(src.encode())
     for _ in range(rng.randrange(1, 4)):
@@ -95,6 +122,13 @@ def run(rep, br, proofs, rng, tier):
                 if name in ("cyclic",): ms = None
                 c = mk_case("b.%s.%s.%s" % (name, fl, mode), "compile", fl, tr, mode, hexs(src.encode()), *mods)
                 c["src"] = src if len(src) < 2000 else name; c["name"] = name
+                cases.append(c)
+    # a builtin name bound at every level x a literal constant at every level x expression forms
+    for name, src in scope_state_scripts(("len", "string") if tier == "quick" else ("len", "string", "error", "append")):
+        for fl in (["noopt", "opt"] if tier == "quick" else flags_all):
+            for mode in (["batch"] if tier == "quick" else ["batch", "eval"]):
+                c = mk_case("s.%s.%s.%s" % (name, fl, mode), "compile", fl, "0", mode, hexs(src.encode()), *mods)
+                c["src"] = src; c["name"] = name
                 cases.append(c)
     # generated valid and near-valid programs
     n = 700 if tier == "quick" else 15000
